@@ -4,7 +4,7 @@ import re
 
 MODEL_VOS = ["theories/Base.vo", "theories/Mapping.vo", "theories/Spec.vo", "theories/Mapper.vo",
              "theories/CacheWriter.vo", "theories/CacheReader.vo", "theories/Stacktrace.vo", "theories/Java.vo",
-             "theories/Metadata.vo", "theories/Sink.vo", "theories/Uuid.vo"]
+             "theories/Metadata.vo", "theories/Sink.vo", "theories/Uuid.vo", "theories/Layout.vo"]
 
 TRUSTED_BASE = [
     "Coq 8.16.1 kernel (coqc), vm_compute for finite checks and witnesses; no native_compute",
@@ -268,7 +268,7 @@ def P(theorems, text, rule, status, **kw):
 
 
 PROPS = {
-    "C01": P(["C01_mapper", "C01_mapper_file", "C01_index_irrelevant", "C01_unknown_class", "C01_terminator_style", "C01_noise_line"],
+    "C01": P(["C01_mapper", "C01_mapper_file", "C01_cache", "C01_index_irrelevant", "C01_unknown_class", "C01_terminator_style", "C01_noise_line"],
              "Theorems: the mapper model returns exactly the declarative specification Sline for every record list "
              "(all classes, methods, lines, files), with or without parameter index; the records - hence the answer - "
              "do not depend on terminator style or unparseable lines. Mapper, mapper-without-index and cache of the "
@@ -277,23 +277,23 @@ PROPS = {
              "zero/inverted/overlapping ranges, noise, LF/CRLF/CR) x frames over the file's name universe x lines "
              "(range boundaries +-1, interiors, 0..66 sample, extremes) x file present/absent; non-trivial = answer "
              "has at least one frame; distinct by (mapping, query)",
-             "mapper side proved at full strength; cache side: see C02 (cache = spec refinement)"),
-    "C03": P(["C03_mapper", "C03_spec_properties"],
+             "mapper side and cache side (bytes -> structure -> specification) proved at full strength"),
+    "C03": P(["C03_mapper", "C03_cache", "C03_spec_properties"],
              "Theorems: the mapper built with parameter index answers parameter queries exactly as the specification "
              "Sparams (non-inlined entries, de-duplicated per class block by (obf,args,orig), file order); the "
              "specification itself has no duplicates, no inlined callees and depends only on the class block. "
              "Mapper and cache of the implementation are compared with the extracted Sparams.",
              "grammar mappings (inline groups, overloads, repeated entries across classes, empty argument lists) x all "
              "(class, method, params) triples of the file plus unknown values; non-trivial = non-empty answer",
-             "mapper side proved at full strength; cache side: see C02"),
-    "C04": P(["C04_class_mapper", "C04_method_mapper", "C04_consistent"],
+             "mapper side and cache side proved at full strength"),
+    "C04": P(["C04_class_mapper", "C04_method_mapper", "C04_class_cache", "C04_method_cache", "C04_consistent"],
              "Theorems: class lookup = original name of the last class line with exactly that obfuscated name, else "
              "nothing; method lookup answers iff all entries agree, and then every line-based frame carries that "
              "method name. Mapper and cache are compared with the extracted Sclass/Smethod.",
              "grammar mappings, every 10th with up to 150 classes over adversarially similar names (prefixes, $ and . "
              "variants, non-ASCII, duplicates) x every name in the file, sort neighbours, unknown names; "
              "non-trivial = lookup succeeds",
-             "mapper side proved at full strength; cache side: see C02"),
+             "mapper side and cache side proved at full strength"),
     "C05": P(["C05_line_roundtrip", "C05_line_in_file", "C05_missing_class_colon", "C05_unspaced_arrow",
               "C05_wrong_indentation", "C05_start_without_end", "C05_missing_return_type"],
              "Theorems: every line printed from the grammar AST (headers, sourceFile header, class, field, method with "
@@ -362,6 +362,56 @@ PROPS = {
              "containing ': ', 'Caused by: ', frame-like text, <init>, non-ASCII, $) plus single frame / throwable lines; "
              "non-trivial = trace with a frame or a cause",
              "all clauses proved; wf_trace is the boolean domain (necessity of each condition shown by counterexamples)"),
+    "C02": P(["C02_bytes_roundtrip", "C02_class", "C02_method", "C02_frame_by_line", "C02_frame_by_params",
+              "C02_signature", "C02_index_irrelevant"],
+             "Theorems (refinement chain): the bytes written from a representable record list parse back to exactly the "
+             "written structure; the reader on that structure answers class, method, line and parameter queries exactly "
+             "as the specification (sorted sections + exact binary search + string-table injectivity), and so does the "
+             "mapper; hence cache = mapper on every query; signature deobfuscation agrees because it is one function of "
+             "the class lookup. Both implementations are compared with each other, with the specification, and the "
+             "written bytes with the model's bytes.",
+             "representable grammar mappings, token mutations that stay representable, corpus files x the complete query "
+             "universe of each (class, method, line, params, text trace, typed trace, signature); non-trivial = "
+             "non-empty answer",
+             "all clauses proved for lookups; text/typed trace agreement follows because both implementations "
+             "instantiate one loop with lookups proved equal (that each Rust copy is this loop is the correspondence)"),
+    "C09": P(["C09_struct_wf", "C09_classes_sorted", "C09_ranges_tile", "C09_strings_readable", "C09_length"],
+             "Theorems about the written structure (whose bytes read back to exactly it): class entries strictly sorted "
+             "by readable obfuscated name; member and by-params ranges tile their sections in class order; every "
+             "referenced offset is a readable string or the sentinel where absence is allowed; words fit 32 bits and "
+             "header counts are true counts; the file length is the one implied by the header. The independent decoder "
+             "layout_ok (Layout.v, written from the documentation only, extracted) is run on the IMPLEMENTATION's bytes, "
+             "the bytes are compared with the model's, and ProguardCache::test is called.",
+             "representable grammar mappings (every 25th up to 120 classes; classes without members, members without "
+             "by-params entries, shared strings, non-ASCII, names > 127 bytes) and corpus files; non-trivial = at least "
+             "one class",
+             "structure-level invariants proved; layout_ok (ser (write_struct rs)) = true as a theorem about the "
+             "independent decoder is work in progress (the decoder is evaluated on every written file instead)",
+             validate_bytes=True, gen="C09"),
+    "C12": P(["C12_search_index_in_bounds", "C12_search_terminates", "C12_class_is_buffer_slice",
+              "C12_method_is_buffer_slice", "C12_frames_are_buffer_slices", "C12_params_frames_are_buffer_slices"],
+             "Theorems for EVERY buffer: the reader model has no panic path (checked arithmetic, get-style slicing); the "
+             "binary-search index used for members[..mid] / members[mid..] is in bounds and the search terminates on "
+             "arbitrary (unsorted, corrupted) data; every string of every answer is a contiguous piece of the buffer or "
+             "the query's own file. The implementation is run on corrupted caches under catch_unwind with overflow "
+             "checks and compared with the model answer by answer.",
+             "valid caches with any 32-bit field set to boundary values, swapped / duplicated records, bit flips, damaged "
+             "length prefixes and UTF-8, random bodies behind a valid header x class / method / line (incl. 0 and "
+             "2^64-1) / params / text / signature queries; non-trivial = buffer accepted and query answered",
+             "all clauses proved; memory safety of watto's unsafe casts on aligned buffers is assumed",
+             assumptions=["buffers are 8-aligned", "watto's Pod casts are sound (unsafe code not modelled)"]),
+    "C13": P(["C13_mapper_never_panics", "C13_writer_counts_do_not_wrap", "C13_writer_counts_exact"],
+             "Partial (runtime stack depth). Theorems: for the records of EVERY byte string the mapper's only unchecked "
+             "subtraction is unreachable (no Panic outcome); the writer's 32-bit counters cannot wrap for mappings below "
+             "2^32 bytes; the cache reader is panic-free for every buffer (C12). The whole pipeline is run on wild-domain "
+             "inputs (numbers around 2^32 and 2^64, empty names, invalid UTF-8) with overflow checks under catch_unwind, "
+             "and every layer is compared with the model.",
+             "wild grammar mappings, token mutations, token soups, raw bytes x record stream, metadata, cache bytes, class "
+             "/ method / line (0, boundaries, 2^32, 2^64-1) / params queries, Unicode trace texts and signatures; "
+             "non-trivial = non-empty answer",
+             "panic-freedom proved for the modelled arithmetic; stack exhaustion of the recursive typed API on cause "
+             "chains of about 2*10^4 (known finding F8) is runtime behaviour outside the model",
+             oracle="model"),
     "C10": P(["C10_layout_or_version_bump", "C10_other_version_rejected", "C10_written_version"],
              "Theorems: the record layouts, sentinel defaults and magic read from the current source equal the pinned "
              "release's unless the version constant differs (guard re-proved against the regenerated Extracted.v on "
@@ -422,7 +472,4 @@ PROPS = {
              "yields; non-trivial = non-empty answer",
              "partial: auto traits are decided by rustc, the memory model and unsafe dependencies are outside the model",
              modes=["run", "run-threads 2", "run-threads 5", "run-threads 16"]),
-    "C02": {"theorems": [], "level_text": "", "level_note": "", "rule": ""},
-    "C12": {"theorems": [], "level_text": "", "level_note": "", "rule": ""},
-    "C13": {"theorems": [], "level_text": "", "level_note": "", "rule": "", "oracle": "model"},
 }
